@@ -17,6 +17,7 @@ import Lattigo.Model.Params
     derived logN= rt= Q= P= lds= ks=<ivec> is=<b:n;…> tr=<ivec>
     accessors logN= rt= Q= P= ws=<vec>                 → qim= pim= brns= maxbit= b2= logqi= logpi= qlvl= counts= maxlevels=
     codec_keys type=<rlweLit|btp|btpLit> <fields>        → keys=<JSON keys in emission order> [nulls=] [xs= xe= it=]
+    scale_json value=<nat> mod=<u64>                     → value=<Text('e',39)> mod=<Text('e',39)> as Scale.MarshalJSON writes them
     exported name= logN= xsH= Q= P=                    → bitQ= bitP= bitQP= kind= table= within= strict= known=
     table logN= kind=                                  → <T> | none
 -/
@@ -261,6 +262,10 @@ def handle (toks : List String) : String :=
   | "derived" :: rest => (handleDerived rest).getD badOp
   | "accessors" :: rest => (handleAccessors rest).getD badOp
   | "codec_keys" :: rest => (handleCodecKeys rest).getD badOp
+  | "scale_json" :: rest =>
+    match ((kv? rest "value").bind String.toNat?, (kv? rest "mod").bind String.toNat?) with
+    | (some v, some m) => s!"value={sciText v} mod={sciText m}"
+    | _ => badOp
   | "exported" :: rest => (handleExported rest).getD badOp
   | "table" :: rest =>
     match ((kv? rest "logN").bind String.toNat?, (kv? rest "kind").bind String.toNat?) with
